@@ -103,6 +103,7 @@ type Contract struct {
 	NoFloat  bool
 	External bool
 	Fresh    bool // result freshly allocated
+	Linear   bool // every AST node obtained from a sub-parser or allocated here ends up in the result (no parsed node is dropped)
 	Sites    []*SiteAssert
 }
 
@@ -150,7 +151,7 @@ func NewSpec() *Spec {
 var clauseKeywords = map[string]bool{"func": true, "tags": true, "requires": true, "ensures": true, "assigns": true,
 	"loop": true, "invariant": true, "decreases": true, "bound": true, "ghost": true, "axiom": true, "smt": true,
 	"trusted": true, "pure": true, "maypanic": true, "package": true, "typeinv": true, "lemma": true, "note": true,
-	"nofloat": true, "fresh": true, "modifies": true, "end": true, "defines": true, "at": true}
+	"nofloat": true, "fresh": true, "linear": true, "modifies": true, "end": true, "defines": true, "at": true}
 
 // ReadSpecFile reads one contract file.  defaultPkg is the import path used for unqualified keys.
 func (sp *Spec) ReadSpecFile(path, defaultPkg string) error {
@@ -241,6 +242,8 @@ func (sp *Spec) ReadSpecFile(path, defaultPkg string) error {
 			cur.NoFloat = true
 		case "fresh":
 			cur.Fresh = true
+		case "linear":
+			cur.Linear = true
 		case "note":
 			if cur != nil {
 				cur.Notes = append(cur.Notes, rc.rest)
